@@ -27,7 +27,7 @@ def termExcs : Term → List Exc
   | .raiseMulti es me => if es.isEmpty then [me] else es
   | .assertFail e _ => [e]
   | .expectFailure _ _ x => [x]
-  | .fixtureFail _ e se => [e, se]
+  | .fixtureFail _ e ces se => e :: ces ++ [se]
 
 /-- the single exception object that propagates out of the stage function -/
 def termObj : Term → Option Exc
@@ -36,7 +36,7 @@ def termObj : Term → Option Exc
   | .raiseMulti _ me => some me
   | .assertFail e _ => some e
   | .expectFailure _ _ x => some x
-  | .fixtureFail _ _ se => some se
+  | .fixtureFail _ _ _ se => some se
 
 /-- the same, seen through `@expectedFailure` -/
 def decoExcs (t : Term) : List Exc :=
@@ -83,7 +83,7 @@ def dictsOf (st : Stage) : List (List (DName × UC)) :=
     | _ => none) ++
   (match st.term with
    | .assertFail _ ds => [ds]
-   | .fixtureFail ds _ _ => [ds]
+   | .fixtureFail ds _ _ _ => [ds]
    | _ => [])
 
 /-- names under which a stage attaches details by plain `addDetail` -/
@@ -112,7 +112,7 @@ def actKeys : List Act → List (Nat × Nat)
 
 def termKeys : Term → List (Nat × Nat)
   | .assertFail _ ds => dictKeys ds
-  | .fixtureFail ds _ _ => dictKeys ds
+  | .fixtureFail ds _ _ _ => dictKeys ds
   | .ret => []
   | .raise1 _ => []
   | .raiseMulti _ _ => []
